@@ -102,4 +102,14 @@ def main(prop, tier):
         if tier != "quick":
             MP += [prof(73, nops=n, pool=40, maxlen=6, alpha=2, pddl=8, **mix), prof(74, nops=n, pool=25, pddl=8, **mix)]
         seqtrace.run_map_profiles(chk, prop, MP, on)
+    if prop == "C08":
+        # quiescent coherence after concurrent histories (any schedule): final dump + three views, judged by TraceLin
+        from props import p_conc
+        chk.assumptions.append("concurrent part: sequentially consistent scheduler-driven executions, see C01")
+        p_conc.run_conc(chk, prop, tier, pkey="C08c")
+    if prop == "C10":
+        # second sentence: cursor steps interleaved with writers on trees of any depth
+        from props import p_conc
+        chk.assumptions.append("concurrent part: sequentially consistent scheduler-driven executions, see C01")
+        p_conc.run_conc(chk, prop, tier)
     return chk.finish()
